@@ -155,3 +155,16 @@ Definition xml_read_record (par : option nsm) (ft : ftable) (prefix_of : string 
           end
       end
   end.
+
+(* the loop of deserialize_subtree over the record children of a container element: stops at the first failure *)
+Fixpoint xml_read_records (par : option nsm) (ft : ftable) (prefix_of : string -> option string) (b : bundle) (xs : list xnode)
+  : bundle * result unit :=
+  match xs with
+  | [] => (b, OK tt)
+  | x :: r =>
+      match xml_read_record par ft prefix_of b x with
+      | (b', OK _) => xml_read_records par ft prefix_of b' r
+      | (b', Raise e) => (b', Raise e)
+      | (b', OutOfDomain) => (b', OutOfDomain)
+      end
+  end.
